@@ -43,7 +43,7 @@ type VConn struct {
 	Visibility        map[imap.MailboxID]imap.MailboxVisibility
 
 	// Fail is consulted before every remote call: a non-nil error makes the call fail.
-	Fail func(call string, n int) error
+	Fail  func(call string, n int) error
 	nCall map[string]int
 	Calls []CallRecord
 
